@@ -1,6 +1,7 @@
 package main
 
 import (
+	"bytes"
 	"fmt"
 	"net"
 	"strconv"
@@ -159,6 +160,17 @@ var fixedLines = []string{
 	"?Xexample.com,1.2.3.4",
 	"?Halpn.example.com:.:300::1:alpn=a,b",
 	"?!m1,zzz,5,ab",
+	// B/H, modelled since the SVCB extension of Model/Text.v
+	"H*.Example.com:svc.example.com.:300:ab:1:port=\"443\";alpn=h2|h3;no-default-alpn=",
+	"Bexample.com,svc.example.com,,,,ipv4hint=\"::ffff:10.0.0.1|1.2.3.4\";echconfig=\"dHJh\nZmZpYw==\"",
+	"Hexample.com,.,300,,65535,mandatory=port|alpn;alpn=\"a\\b|c=d\";port=00443;",
+	"Hexample.com,.,300,,1,alpn=h2;;bogus=1",
+	"Bexample.com,x..example..com.,4294967295,\\000\\000,65536,ipv6hint=2001:DB8:0:0:0:0:0:1|::",
+	"?Bx.example.com,*.*.svc.example.com,300,,1", // the target loses a second \"*.\" when its text form is read back
+	"?Halpn.example.com,.,300,,1,alpn=h2,h3",     // cut at the comma when read
+	"?Hexample.com,.,300,,1,port=443;port=444",
+	"?Hexample.com,.,300,,1,mandatory=ipv4hint;alpn=h2",
+	"?Hexample.com:.:300::1:ipv6hint=2001:db8::1", // the hint is cut at its first ':'
 }
 
 var fixedFiles = [][]string{
@@ -551,6 +563,19 @@ func (g *gen) svcbParams(colonOK bool) (string, string) {
 	return s, class
 }
 
+// svcbTargetStarsTwice: the name without one leading "*." has a text form (empty labels dropped)
+// that begins with "*." again
+func svcbTargetStarsTwice(n []byte) bool {
+	n = bytes.TrimPrefix(n, []byte("*."))
+	var ls [][]byte
+	for _, l := range bytes.Split(n, []byte(".")) {
+		if len(l) > 0 {
+			ls = append(ls, l)
+		}
+	}
+	return len(ls) >= 2 && string(ls[0]) == "*"
+}
+
 var types = []byte("%Z.&+=@SC^':M8!BH")
 
 // line produces a line the generator claims to be well formed
@@ -660,6 +685,11 @@ func (g *gen) line() ([]byte, string) {
 			class += "-wild"
 		}
 		tgt := g.name(0)
+		for svcbTargetStarsTwice(tgt) {
+			// getdom drops one leading "*." of the target; a second one is printed and dropped when the
+			// text form is read back (outside the guard, fixed line "?Bx.example.com,*.*.svc...")
+			tgt = g.name(0)
+		}
 		fs = []field{f(e0(own)), f(e(tgt)), g.ttl(), opt(e(g.loc())), optS(g.num(65535, 0, 1)), optS(ps)}
 	}
 	return g.assemble(t, sep, fs), class
@@ -780,7 +810,7 @@ func (g *gen) file() ([][]byte, bool, string) {
 	}
 	if r.Chance(1, 2) {
 		l, _ := g.line()
-		if len(l) > 1 && l[0] != '%' && l[0] != 'Z' && !strings.Contains(string(l), "ipv6hint=::ffff:") && !(l[0] == 'B' || l[0] == 'H') {
+		if len(l) > 1 && l[0] != '%' && l[0] != 'Z' && !strings.Contains(string(l), "ipv6hint=::ffff:") {
 			ls = append(ls, l)
 		}
 	}
